@@ -39,11 +39,13 @@ def current():
 def set_world(w):
     global _current
     _current = w
+    from . import wire as _wire
+    _wire.EXTRA_PADDING = getattr(w, 'pad_extra', 0) if w is not None else 0
 
 
 class World:
     def __init__(self, servers=None, resolver=None, clients=None, faults=None, budget=20000,
-                 coalesce=False, segment=0, select_latency=0.01):
+                 coalesce=False, segment=0, select_latency=0.01, pad_extra=0):
         self.servers = servers or {}       # (ip, port) -> server object with .accept(world, vsock) -> conn or raises
         self.resolver = resolver or {}     # host -> [(family, ip)] | Exception | callable(host, port, family)
         self.clients = list(clients or []) # scripted clients for client audits (objects with .connect(world, listener))
@@ -51,6 +53,7 @@ class World:
         self.budget = budget
         self.coalesce = coalesce
         self.segment = segment
+        self.pad_extra = pad_extra         # the peers' SSH-2 packets carry this much more random padding than the minimum (a multiple of 8; RFC 4253 allows up to 255 bytes)
         self.select_latency = select_latency
         self.ops = 0
         self.log = []                      # flat event log
